@@ -413,6 +413,141 @@ func c11FreshHandler(w *ndWriter, trials int) int {
 	return trials
 }
 
+// a composition derived from a CONFIGURED source: src.ObserveOn(h1).SubscribeOn(h2).FlatMap(f) is a new, unconfigured monad - its
+// Subscribe runs the whole chain (the source's effect, f, f's monad) and OnNext on the subscribing goroutine, before it returns
+func c11Inherit(w *ndWriter) int {
+	n := 0
+	for _, depth := range []int{1, 2} {
+		e := &c11Env{thr: map[int64]string{gid(): "caller"}, h: map[string]*fpgo.HandlerDef{}}
+		e.h["h1"], e.h["h2"] = fpgo.Handler.NewByCh(make(chan func(), 8)), fpgo.Handler.NewByCh(make(chan func(), 8))
+		out := c11ConcOut{Part: "inherit", N: depth, ObOn: "nil", SubOn: "caller", NewSub: "-", Kind: "ok", Effects: []c11Del{}, Delivered: []c11Del{}}
+		ok := e.syncHandler("h1") && e.syncHandler("h2")
+		var mu sync.Mutex
+		log := func(v int) {
+			who := e.who()
+			mu.Lock()
+			out.Effects = append(out.Effects, c11Del{v, who})
+			mu.Unlock()
+		}
+		src := fpgo.MonadIONewGenerics(func() int { log(0); return 1000 }).ObserveOn(e.h["h1"]).SubscribeOn(e.h["h2"])
+		comp := src.FlatMap(func(v int) *fpgo.MonadIODef[int] { log(1); return fpgo.MonadIOJustGenerics(v + 1) })
+		if depth == 2 {
+			comp = comp.FlatMap(func(v int) *fpgo.MonadIODef[int] { log(2); return fpgo.MonadIOJustGenerics(v + 1) })
+		}
+		done := make(chan struct{}, 1)
+		go func() {
+			defer func() { recover(); done <- struct{}{} }()
+			e.mu.Lock()
+			e.thr[gid()] = "caller"
+			e.mu.Unlock()
+			comp.Subscribe(fpgo.Subscription[int]{OnNext: func(v int) {
+				who := e.who()
+				mu.Lock()
+				out.Delivered = append(out.Delivered, c11Del{v, who})
+				mu.Unlock()
+			}})
+			mu.Lock()
+			if len(out.Delivered) == 0 {
+				out.Kind = "late"
+			}
+			mu.Unlock()
+		}()
+		select {
+		case <-done:
+		case <-time.After(2 * time.Second):
+			ok = false
+		}
+		time.Sleep(20 * time.Millisecond)
+		if !ok {
+			out.Kind = "stuck"
+		}
+		mu.Lock()
+		w.write(out)
+		mu.Unlock()
+		n++
+		for _, h := range e.h {
+			h.Close()
+		}
+	}
+	return n
+}
+
+// evaluations of one monad that nest or wait for each other: a monadic loop (the continuation returns the loop itself), an effect that
+// evaluates its own monad once more, two goroutines whose evaluations of one monad rendezvous - all must complete
+func c11Reentrant(w *ndWriter) int {
+	n := 0
+	run := func(shape string, want []int, body func(log func(int)) int) {
+		out := c11ConcOut{Part: "reentrant", N: len(want), ObOn: shape, SubOn: "-", NewSub: "-", Kind: "ok", Effects: []c11Del{}, Delivered: []c11Del{}}
+		var mu sync.Mutex
+		log := func(v int) { mu.Lock(); out.Effects = append(out.Effects, c11Del{v, "-"}); mu.Unlock() }
+		res := make(chan int, 1)
+		go func() {
+			defer func() {
+				if recover() != nil {
+					res <- -1
+				}
+			}()
+			res <- body(log)
+		}()
+		select {
+		case v := <-res:
+			out.Delivered = append(out.Delivered, c11Del{v, "-"})
+		case <-time.After(3 * time.Second):
+			out.Kind = "stuck"
+		}
+		mu.Lock()
+		w.write(out)
+		mu.Unlock()
+		n++
+	}
+	run("loop", []int{1, 2, 3}, func(log func(int)) int {
+		count := 0
+		step := fpgo.MonadIONewGenerics(func() int { count++; log(count); return count })
+		var loop *fpgo.MonadIODef[int]
+		loop = step.FlatMap(func(v int) *fpgo.MonadIODef[int] {
+			if v < 3 {
+				return loop
+			}
+			return fpgo.MonadIOJustGenerics(v * 10)
+		})
+		return loop.Eval()
+	})
+	run("self-eval", []int{1, 2}, func(log func(int)) int {
+		depth := 0
+		var m *fpgo.MonadIODef[int]
+		m = fpgo.MonadIONewGenerics(func() int {
+			depth++
+			log(depth)
+			if depth == 1 {
+				return 10 + m.Eval()
+			}
+			return 20
+		})
+		return m.Eval()
+	})
+	run("rendezvous", []int{1, 1}, func(log func(int)) int {
+		var in int32
+		m := fpgo.MonadIONewGenerics(func() int {
+			atomic.AddInt32(&in, 1)
+			log(1)
+			for i := 0; i < 2000000 && atomic.LoadInt32(&in) < 2; i++ { // wait (bounded) until the other evaluation is inside too
+				runtime.Gosched()
+			}
+			return int(atomic.LoadInt32(&in))
+		})
+		other := make(chan int, 1)
+		go func() { other <- m.Eval() }()
+		a := m.Eval()
+		select {
+		case b := <-other:
+			return a*10 + b
+		case <-time.After(2 * time.Second):
+			return -2
+		}
+	})
+	return n
+}
+
 func c11Conc(w *ndWriter) int {
 	n := 0
 	for _, ob := range []string{"nil", "h1"} {
@@ -607,6 +742,8 @@ func c11Main(args []string) error {
 		for i := 0; i < flagInt(args, "repeat", 3); i++ {
 			total += c11Conc(w)
 			total += c11Siblings(w)
+			total += c11Inherit(w)
+			total += c11Reentrant(w)
 			total += c11FreshHandler(w, flagInt(args, "fresh", 150))
 		}
 		fmt.Printf("{\"runs\":%d}\n", total)
